@@ -221,12 +221,20 @@ def check_interval(acc, mods, fa, dur, fb):
     """fa: start fields (UTC), dur: components dict for c04.add_wall, fb unused for duration forms."""
     pendulum, fns = mods
     ta = "%04d-%02d-%02dT%02d:%02d:%02d" % fa[:6]
+    if "weeks" in dur:
+        comps_w = [("W", dur["weeks"])]
+        return _check_interval_forms(acc, mods, fa, {"days": 7 * dur["weeks"]}, render(comps_w), dur)
     comps = [(k, v) for k, v in (("Y", dur.get("years", 0)), ("Mo", dur.get("months", 0)), ("D", dur.get("days", 0)),
                                  ("H", dur.get("hours", 0)), ("Mi", dur.get("minutes", 0)),
                                  ("S", dur.get("seconds", 0))) if v]
     if not comps:
         return
-    ds = render(comps)
+    _check_interval_forms(acc, mods, fa, dur, render(comps), dur)
+
+
+def _check_interval_forms(acc, mods, fa, dur, ds, dur_case):
+    pendulum, fns = mods
+    ta = "%04d-%02d-%02dT%02d:%02d:%02d" % fa[:6]
     end = c04.add_wall(tuple(fa), dur, 1)
     start2 = c04.add_wall(tuple(fa), dur, -1)
     forms = []
@@ -242,7 +250,7 @@ def check_interval(acc, mods, fa, dur, fb):
     forms = [(s_, es, ee, kind, None, 0) for s_, es, ee, kind in forms] + \
             [(s_.replace("Z", ""), es, ee, kind + "/tz-option", tzopt, 19800) for s_, es, ee, kind in forms]
     for s, es, ee, kind, tzo, eoff in forms:
-        case = {"kind": "iv", "fa": list(fa), "dur": dur}
+        case = {"kind": "iv", "fa": list(fa), "dur": dur_case}
         acc.c["evaluations"] += 1
         acc.c["transitions"] += 1
         try:
@@ -333,7 +341,7 @@ def run_shard(shard):
         durs = [{"years": 1}, {"months": 1}, {"months": 13, "days": 3}, {"days": 1}, {"days": 45, "hours": 5},
                 {"hours": 25}, {"minutes": 61, "seconds": 1}, {"years": 1, "months": 2, "days": 3, "hours": 4,
                                                                "minutes": 5, "seconds": 6},
-                {"months": 1, "days": 1}, {"days": 29}, {"seconds": 86399}, {"years": 4}]
+                {"months": 1, "days": 1}, {"days": 29}, {"seconds": 86399}, {"years": 4}, {"weeks": 1}, {"weeks": 2}, {"weeks": 53}]
         for fa in shard["starts"]:
             acc.c["states"] += 1
             for dur in durs:
